@@ -947,6 +947,7 @@ example : (prun (Pipe.new 1 0 0) [.alloc 1, .alloc 2, .append 2, .append 1, .wri
 theorem C08_on_tree : Facts.writeHoldsAppendLockAcrossAllocAndAppend = true ∧ Facts.writeChecksLeaderStatusBeforeAlloc = true ∧
     Facts.trackerCommitsAtRequiredAcks = true ∧ Facts.walRejectsNonContiguousOffsets = true ∧
     Facts.walSyncCallbacksOnlyForFlushedEntries = true ∧
-    Facts.trackerCompletesWaitersUnderLock = true := by decide
+    Facts.trackerCompletesWaitersUnderLock = true ∧ Facts.walSyncToleratesRollover = true ∧
+    Facts.walRolloverFlushesSegment = true := by decide
 
 end Oxia.C08
